@@ -1081,6 +1081,7 @@ package_info slice =
   let Take<T> : int->[]T->[]T
   let Map<T, U> : (T->U)->[]T->[]U
   let Filter<T> : (T->bool)->[]T->[]T
+  let Iter<T> : (T->())->[]T->()
   let Fold<T, S>: (S->T->S)->S->[]T->S
 
 package_info strings =
